@@ -193,7 +193,14 @@ func runCase(c Case, ctx *hx.Ctx) *hx.Failure {
 		}(g, prog)
 	}
 	close(start)
-	wg.Wait()
+	if done, hang, detail := hx.WaitBounded(&wg, 30*time.Second, "c11.runCase", clock.Load); !done {
+		if hang {
+			return hx.Failf("C11/operation-never-returns", "concurrent Get/Store/Flush/Len/Range workers have not finished after 30 s and make no progress; stuck in the store:\n%s", detail)
+		}
+		ctx.Class("inconclusive:workers-slow")
+		wg.Wait()
+		return nil
+	}
 
 	// ------------------------------------------------------------ judge the history
 	type storeRec struct {
@@ -438,7 +445,14 @@ func TestShardedLRURace(t *testing.T) {
 				}
 			}(g)
 		}
-		wg.Wait()
+		if done, hang, detail := hx.WaitBounded(&wg, 30*time.Second, "c11.TestShardedLRURace", nil); !done {
+			if hang {
+				return hx.Failf("C11/operation-never-returns", "sharded LRU: concurrent Add/Get/Del/Len workers have not finished after 30 s; stuck:\n%s", detail)
+			}
+			ctx.Class("inconclusive:workers-slow")
+			wg.Wait()
+			return nil
+		}
 		if bad.Load() != 0 {
 			return hx.Failf("C11/sharded-lru", "%d anomalies (foreign value or size above shards*max)", bad.Load())
 		}
